@@ -24,6 +24,32 @@ EXIT_NONDET = 3
 HASH_CONFIGS = ("H0", "H7", "HU")
 
 
+_NO_ASLR: list | None = None
+
+
+def no_aslr_prefix() -> list[str]:
+    """``setarch <arch> -R`` if it works here: simulated processes then get the same addresses in every
+    zygote, which makes behaviour that depends on object identity or address reuse replayable."""
+    global _NO_ASLR  # noqa: PLW0603
+    if _NO_ASLR is None:
+        import platform  # noqa: PLC0415
+        import shutil  # noqa: PLC0415
+        import subprocess  # noqa: PLC0415
+
+        _NO_ASLR = []
+        exe = shutil.which("setarch")
+        if exe and not os.environ.get("VERIF_KEEP_ASLR"):
+            cmd = [exe, platform.machine(), "-R"]
+            try:
+                outs = {subprocess.run([*cmd, PYTHON, "-c", "print(id(object()))"], capture_output=True, text=True,
+                                       timeout=60, check=False).stdout for _ in range(2)}
+                if len(outs) == 1 and outs.pop().strip().isdigit():
+                    _NO_ASLR = cmd
+            except (OSError, subprocess.SubprocessError):
+                _NO_ASLR = []
+    return list(_NO_ASLR)
+
+
 def env_int(name: str, default: int) -> int:
     value = os.environ.get(name, "")
     try:
